@@ -1,6 +1,7 @@
 import Ecal.Lemmas.ExprFuel
 import Ecal.Gen.C03
 import Ecal.Model.ExprLex
+import Ecal.Lemmas.C03LexNumber
 /-!
 # C03 — helper lemmas of `Ecal.Props.C03` (not property statements)
 -/
@@ -263,4 +264,60 @@ theorem specItems_err_mem : ∀ (its : Items) (k : ErrKind) (s : Str) (p : Optio
 end
 
 end Adm
+end Ecal.Props.C03
+
+/-! ### number atoms of the driver's token list come from NUMBER tokens of the lexer model -/
+namespace Ecal.Props.C03
+open Ecal.Expr
+
+theorem convAll_mem (num : List (Str × Nat)) : ∀ (l : List Ecal.Lex.Tok) (ts : List LTok),
+    convAll num l = some ts → ∀ t' ∈ ts, ∃ t ∈ l, convTok num t = some t'
+  | [], ts, h, t', ht' => by simp [convAll] at h; subst h; cases ht'
+  | x :: l, ts, h, t', ht' => by
+    obtain ⟨a, as, h1, h2, rfl⟩ := convAll_cons num x l ts h
+    rcases List.mem_cons.1 ht' with rfl | hm
+    · exact ⟨x, List.mem_cons_self, h1⟩
+    · obtain ⟨t, ht, hc⟩ := convAll_mem num l as h2 t' hm
+      exact ⟨t, List.mem_cons_of_mem _ ht, hc⟩
+
+theorem tkOfLex_num (num : List (Str × Nat)) (t : Ecal.Lex.Tok) (txt : Str) (b : Nat)
+    (h : tkOfLex num t = some (.atom (.num txt b))) : t.id = Ecal.Lex.tNUMBER ∧ txt = t.val := by
+  unfold tkOfLex at h
+  split at h
+  · cases h
+  · split at h
+    · cases h
+    · split at h
+      · cases h
+      · split at h
+        · rename_i hid
+          simp only [Option.map_eq_some_iff] at h
+          obtain ⟨p, _, hp⟩ := h
+          obtain ⟨p1, p2⟩ := p
+          simp only [Option.some.injEq, TK.atom.injEq, Atom.num.injEq] at hp
+          exact ⟨hid, hp.1.symm⟩
+        · split at h
+          · cases h
+          · split at h <;> (try cases h)
+            rename_i s _ _ _ _ _ _ _ _ _
+            simp only [Option.some.injEq] at h
+            split at h <;> cases h
+
+end Ecal.Props.C03
+
+namespace Ecal.Props.C03
+open Ecal.Expr Ecal.Expr.Spec
+
+/-- the list value `[a₁, …, aₙ]` of literals / identifiers -/
+def atomItems : List Atom → Items
+  | [] => .nil
+  | a :: as => .cons (.atom a) (atomItems as)
+
+theorem atomItems_prints : ∀ (as : List Atom), PrintsItems (atomItems as) (as.map TK.atom ++ [.rb])
+  | [] => PrintsItems.nil
+  | [a] => PrintsItems.last (ts := [.atom a]) Prints.atom
+  | a :: b :: rest =>
+    PrintsItems.juxt (ts := [.atom a]) (a := b) (tl := rest.map TK.atom ++ [.rb]) Prints.atom
+      (atomItems_prints (b :: rest)) rfl
+
 end Ecal.Props.C03
